@@ -88,7 +88,7 @@ bool Program::parse(const std::string& txt, std::string& err)
         }
         steps.push_back(w);
     }
-    if (domains.empty()) { err = "no domain"; return false; }
+    if (domains.empty() && property != "C18" && property != "C19") { err = "no domain"; return false; }
     return true;
 }
 
